@@ -31,6 +31,16 @@ class Prop(Bip32Prop):
                                     depth=rng.choice([0, 2]), testnet=rng.random() < 0.5)
                 path = [rng.choice([rng.randrange(0, H), rng.randrange(H, 2 ** 32), 0, H, 44 + H]) for _ in range(L)]
                 cases.append({"kind": "Derive", "start": st, "path": path})
+        # the last step taken through generate_children (intervals that cross 2^31: hardened and normal children in one batch,
+        # ascending / descending / strided) and through ckd after other children were requested from the same parent
+        for j, tgt in enumerate([H, H + 1, H - 1, H - 2] + ([H + 3, H - 5] if T else [])):
+            for iv in self.straddling_intervals(tgt)[: (3 if T else 2)] if j < 2 or T else self.straddling_intervals(tgt)[:1]:
+                st = self.start_prv(rng, self.rand_scalar(rng, ["rand", "lz1", "nm1"][j % 3]), stored33=(j % 2 == 1), testnet=(j % 2 == 0))
+                path = ([] if j % 2 == 0 else [rng.choice([0, H + 44])]) + [tgt]
+                cases.append({"kind": "Derive", "start": st, "path": path, "via": {"gen": iv}, "note": "last step via generate_children%r" % (iv,)})
+        for hist, tgt in ([[7, 2], 2], [[H + 1, 0, H + 1], 0], [[3, H, 0, 3], H]):
+            st = self.start_prv(rng, self.rand_scalar(rng, "rand"))
+            cases.append({"kind": "Derive", "start": st, "path": [tgt], "via": {"history": hist}, "note": "after ckd history %r" % (hist,)})
         # out of domain: index out of range, depth 255 parent
         st = self.start_prv(rng, self.rand_scalar(rng, "rand"))
         cases.append({"kind": "Derive", "start": st, "path": [-1]})
@@ -46,4 +56,7 @@ class Prop(Bip32Prop):
             path = [rng.choice([0, H, 7, H + 9])] if j % 3 else [rng.randrange(0, 2 ** 32), rng.choice([1, H + 1])]
             stub = self.stub_for_last_step(st, path, rng, **{what: v})
             cases.append({"kind": "Derive", "start": st, "path": path, "stub": stub, "note": "%s=%s" % (what, hex(v))})
+            if j in (0, 3, 4, 6):
+                cases.append({"kind": "Derive", "start": st, "path": path, "stub": stub, "via": {"gen": [path[-1], path[-1] + 2]},
+                              "note": "%s=%s, last step via generate_children" % (what, hex(v))})
         return cases
